@@ -2,5 +2,5 @@
 EXTENDS Naturals, Sequences, TLC, Json, Opcodes
 ASSUME PrintT(ToJson([tag |-> "opcodes",
    ops |-> [i \in 1 .. Len(OpTable) |-> [name |-> OpTable[i][1], code |-> OpTable[i][2],
-                                         imm |-> OpTable[i][1] \in ImmOps, control |-> OpTable[i][1] \in ControlOps]]]))
+                                         imm |-> OpTable[i][1] \in ImmOpNames, control |-> OpTable[i][1] \in ControlOps]]]))
 =============================================================================
